@@ -591,3 +591,8 @@ def run(chk):
     res = chk.guard("O10.4", "<execute chain>", c10.chain_functions, chk)
     if res:
         chk.guard("O10.4", "<leaves>", c10.leaves, chk, res[0])
+    # "one event loop / one trio run per runtime": a second accept must be refused without disturbing the first -- a refused
+    # caller that releases the guard lets a third accept start a second loop next to the running one (shared with C12)
+    from . import c12
+
+    chk.guard("O12.1", c12.GUARD, c12.lock_pairing, chk)
